@@ -157,19 +157,26 @@ int main(int argc, char** argv) {
     for (auto& [p, n] : W.nodes) W.render(p);
     long long swapTotal = r.pick(std::vector<long long>{0, 8, 40, 100}), swapUsed = swapTotal ? r.upto((int)swapTotal + 1) : 0;
     Oomd::ContextParams params;
-    params.io_devs["8:0"] = Oomd::DeviceType::SSD;
-    params.io_devs["8:16"] = Oomd::DeviceType::HDD;
-    params.ssd_coeffs = {1, 2, 3, 4, 5, 6};
-    params.hdd_coeffs = {2, 1, 1, 3, 0, 7};
+    // every execution has its own device / coefficient configuration (one process, many contexts)
+    std::vector<std::string> devJ;
+    for (const char* dev : {"8:0", "8:16"}) {
+      int k = r.upto(5);   // ssd, ssd, hdd, hdd, not configured
+      if (k == 4) continue;
+      params.io_devs[dev] = k < 2 ? Oomd::DeviceType::SSD : Oomd::DeviceType::HDD;
+      devJ.push_back(J().str("dev", dev).str("kind", k < 2 ? "ssd" : "hdd").done());
+    }
+    int sc[6], hc[6];
+    for (int i = 0; i < 6; i++) { sc[i] = r.upto(8); hc[i] = r.upto(8); }
+    params.ssd_coeffs = {(double)sc[0], (double)sc[1], (double)sc[2], (double)sc[3], (double)sc[4], (double)sc[5]};
+    params.hdd_coeffs = {(double)hc[0], (double)hc[1], (double)hc[2], (double)hc[3], (double)hc[4], (double)hc[5]};
+    auto coeffJ = [](int* c) { return J().num("read_iops", c[0]).num("readbw", c[1]).num("write_iops", c[2]).num("writebw", c[3]).num("trim_iops", c[4]).num("trimbw", c[5]).done(); };
     Oomd::OomdContext ctx(params);
     auto setSys = [&] { Oomd::SystemContext s; s.swaptotal = (uint64_t)(swapTotal * W.U); s.swapused = (uint64_t)(swapUsed * W.U); ctx.setSystemContext(s); };
     setSys();
     evEmit(J().str("e", "SReset").num("scn", scn).num("seed", (long long)seed).str("U", std::to_string(W.U))
                .boolean("dtype", !ip().clearDType).boolean("experimentalPsi", W.experimentalPsi)
                .raw("K", W.treeJ()).raw("sys", J().num("swaptotal", swapTotal).num("swapused", swapUsed).done())
-               .raw("cfg", "{\"devs\":[{\"dev\":\"8:0\",\"kind\":\"ssd\"},{\"dev\":\"8:16\",\"kind\":\"hdd\"}],"
-                           "\"ssd\":{\"read_iops\":1,\"readbw\":2,\"write_iops\":3,\"writebw\":4,\"trim_iops\":5,\"trimbw\":6},"
-                           "\"hdd\":{\"read_iops\":2,\"readbw\":1,\"write_iops\":1,\"writebw\":3,\"trim_iops\":0,\"trimbw\":7},\"decay\":4}"));
+               .raw("cfg", J().raw("devs", J::arr(devJ)).raw("ssd", coeffJ(sc)).raw("hdd", coeffJ(hc)).num("decay", 4).done()));
     std::vector<std::string> fields = {"current_usage", "swap_usage", "swap_max", "memory_low", "memory_min", "memory_high", "memory_max",
         "anon_usage", "file_usage", "shmem_usage", "pg_scan_cumulative", "nr_dying_descendants", "is_populated", "oom_group",
         "kill_preference", "children", "id", "mem_pressure", "mem_pressure_some", "io_pressure", "io_pressure_some",
